@@ -32,10 +32,22 @@ var c03Templates = []struct {
 	name string
 	mk   func(t time.Time, nb *der.Node) []byte
 }{
-	{"gen/root", func(t time.Time, nb *der.Node) []byte { s := gen.RootCA(t, gen.DefaultKey()); s.NBNode = nb; return s.DER() }},
-	{"gen/tls", func(t time.Time, nb *der.Node) []byte { s := gen.TLSLeaf(t, "www.example.com"); s.NBNode = nb; return s.DER() }},
+	{"gen/root", func(t time.Time, nb *der.Node) []byte {
+		s := gen.RootCA(t, gen.DefaultKey())
+		s.NBNode = nb
+		return s.DER()
+	}},
+	{"gen/tls", func(t time.Time, nb *der.Node) []byte {
+		s := gen.TLSLeaf(t, "www.example.com")
+		s.NBNode = nb
+		return s.DER()
+	}},
 	{"gen/subca", func(t time.Time, nb *der.Node) []byte { s := gen.SubCA(t); s.NBNode = nb; return s.DER() }},
-	{"gen/smime", func(t time.Time, nb *der.Node) []byte { s := gen.SMIMELeaf(t, "alice@example.com"); s.NBNode = nb; return s.DER() }},
+	{"gen/smime", func(t time.Time, nb *der.Node) []byte {
+		s := gen.SMIMELeaf(t, "alice@example.com")
+		s.NBNode = nb
+		return s.DER()
+	}},
 	{"gen/cs", func(t time.Time, nb *der.Node) []byte { s := gen.CSLeaf(t); s.NBNode = nb; return s.DER() }},
 }
 
@@ -169,8 +181,8 @@ func min(a, b int) int {
 func init() {
 	var nSeeds, nMut int
 	mon.Register(&mon.Check{
-		ID: "C03",
-		Rule: "evaluations = Lint*Ex calls whose every non-NA result was judged against the reference window predicate (integer Unix seconds, time-zone free): NE <=> outside [effective, ineffective). distinct_nontrivial = distinct (lint, boundary label) pairs, label in {E-1,E,E+1,I-1,I,I+1}, for which the lint was applicable on an object re-dated to exactly that instant (so the boundary was actually judged). Workload: every registered lint x its boundary instants x applicable base objects x {Z, +hhmm} encodings; safety over corpus + mutants + mutants re-dated onto registry instants; probe lints of all three kinds with every metadata shape (own process).",
+		ID:          "C03",
+		Rule:        "evaluations = Lint*Ex calls whose every non-NA result was judged against the reference window predicate (integer Unix seconds, time-zone free): NE <=> outside [effective, ineffective). distinct_nontrivial = distinct (lint, boundary label) pairs, label in {E-1,E,E+1,I-1,I,I+1}, for which the lint was applicable on an object re-dated to exactly that instant (so the boundary was actually judged). Workload: every registered lint x its boundary instants x applicable base objects x {Z, +hhmm} encodings; safety over corpus + mutants + mutants re-dated onto registry instants; probe lints of all three kinds with every metadata shape (own process).",
 		Assumptions: []string{"the parser's reading of the encoded time defines the object's date", "lints never applicable on any seed (listed) are only covered by the safety monitor"},
 		Setup: func(c *mon.Ctx) error {
 			if err := setupCommon(c); err != nil {
